@@ -1,126 +1,20 @@
-"""C01, thorough tier: type expressions of nesting depth 3 drawn from the type grammar with VERIF_SEED, checked against the
-reference model props/spec.py on type-directed values with three symbolic leaf slots.
-
-The types are regenerated from the seed at import (the replay scripts carry the seed), so nothing is stored.
+"""C01, thorough tier: type expressions of nesting depth 3 drawn from the type grammar with VERIF_SEED (props/gen_types.py),
+checked against the reference model props/spec.py on type-directed values with three symbolic leaf slots.
 Verdict codes as in hC01.  Witness classes: 0 accepted, -1 rejected.
 """
-import os
-import random
-import typing as t
-from typing import Literal, Optional, List
-
 import pane
 from pane.annotations import Positive
-from pane.convert import make_converter
 from pane.errors import ConvertError
 
-from hlib import obligation, crosshair_exc, eqv, lf
+from hlib import obligation, crosshair_exc, eqv
 from props import spec as S
-from props.shared import P1, E1, EI
+from props import gen_types as G
 
-SEED = int(os.environ.get('VERIF_SEED', '0') or 0)
-N_TYPES = 24
 PREDS = {Positive: lambda x: x > 0}
-
-LEAVES = [int, float, str, bool, type(None), Literal['a', 1], E1, EI, P1, t.Annotated[int, Positive], t.Any]
-HASHABLE_LEAVES = [int, str, bool, Literal['a', 1], E1]
+GEN = G.gen_types(G.SEED)
 
 
-def gen_type(rnd, depth):
-    """a random type expression of nesting depth <= depth from the grammar of DESIGN.md 3.2"""
-    if depth == 0 or rnd.random() < 0.15:
-        return rnd.choice(LEAVES)
-    c = rnd.randrange(9)
-    if c == 0:
-        return t.List[gen_type(rnd, depth - 1)]
-    elif c == 1:
-        return t.Tuple[gen_type(rnd, depth - 1), gen_type(rnd, depth - 1)]
-    elif c == 2:
-        return t.Tuple[gen_type(rnd, depth - 1), ...]
-    elif c == 3:
-        return t.Dict[str, gen_type(rnd, depth - 1)]
-    elif c == 4:
-        return Optional[gen_type(rnd, depth - 1)]
-    elif c == 5:
-        a, b = gen_type(rnd, depth - 1), gen_type(rnd, depth - 1)
-        try:
-            return t.Union[a, b]
-        except TypeError:
-            return t.List[a]
-    elif c == 6:
-        return {'a': gen_type(rnd, depth - 1), 'b': gen_type(rnd, depth - 1)}
-    elif c == 7:
-        return t.Set[rnd.choice(HASHABLE_LEAVES)]
-    else:
-        return t.Sequence[gen_type(rnd, depth - 1)]
-
-
-def _typing_ok(T):
-    return not isinstance(T, (dict, tuple))
-
-
-def gen_types(seed):
-    rnd = random.Random(424242 + seed)
-    out = []
-    tries = 0
-    while len(out) < N_TYPES and tries < 500:
-        tries += 1
-        try:
-            T = gen_type(rnd, 3)
-            make_converter(T)
-        except TypeError:
-            continue        # struct literals cannot sit inside typing generics: regenerate
-        out.append(T)
-    return out
-
-
-GEN = gen_types(SEED)
-
-
-class Slots:
-    def __init__(self, slots):
-        self.slots = list(slots)
-        self.n = 0
-
-    def next(self):
-        if self.n < len(self.slots):
-            s = self.slots[self.n]
-        else:
-            s = (2, 1, 'a')            # beyond the third leaf: a fixed int
-        self.n += 1
-        return s
-
-
-def build(T, sl, alt):
-    """a value shaped like T (so that only the LEAVES decide membership), leaves from the symbolic slots; `alt` picks the
-    second member of unions / None for Optional / the empty container"""
-    if isinstance(T, dict):
-        return {k: build(v, sl, alt) for (k, v) in T.items()}
-    origin = t.get_origin(T)
-    args = t.get_args(T)
-    if origin is t.Annotated:
-        return build(args[0], sl, alt)
-    if origin is t.Union:
-        if alt and type(None) in args:
-            return None
-        return build(args[1] if (alt and len(args) > 1) else args[0], sl, alt)
-    if origin in (list, set, frozenset) or (origin is not None and origin.__name__ in ('Sequence',)):
-        return [] if (alt and origin is list) else [build(args[0], sl, alt)]
-    if origin is tuple:
-        if len(args) == 2 and args[1] is Ellipsis:
-            return (build(args[0], sl, alt), build(args[0], sl, alt))
-        return tuple(build(a, sl, alt) for a in args)
-    if origin is dict:
-        return {'k': build(args[1], sl, alt)}
-    if T is P1:
-        (k, i, s) = sl.next()
-        return {'a': lf(k, i, s, True)}
-    (k, i, s) = sl.next()
-    ci = T in (float, E1, EI) or origin is t.Literal
-    return lf(k, i, s, ci)
-
-
-def check(idx, v):
+def check_depth3(idx, v):
     T = GEN[idx]
     want, img = S.spec(T, v, PREDS)
     try:
@@ -145,20 +39,6 @@ def check(idx, v):
     return 0
 
 
-for _i in range(len(GEN)):
-    for _alt in (False, True):
-        for _k in range(6):
-            try:
-                check(_i, build(GEN[_i], Slots([(_k, 1, 'a'), (2, 0, ''), (4, 1, 'b')]), _alt))
-            except Exception:
-                pass
-
-_T = '''
-@obligation(pre="0 <= k1 <= 5 and 0 <= k2 <= 5 and 0 <= k3 <= 5 and (k2 == 2 or k3 == 2)", witnesses=(), timeout=240, tiers=('thorough',))
-def body_depth3_{idx}(k1: int, i1: int, s1: str, k2: int, i2: int, s2: str, k3: int, i3: int, s3: str, alt: bool) -> int:
-    """seeded depth-3 type #{idx} (seed {seed}): {tyrepr}"""
-    v = build(GEN[{idx}], Slots([(k1, i1, s1), (k2, i2, s2), (k3, i3, s3)]), alt)
-    return check({idx}, v)
-'''
-for _i in range(len(GEN)):
-    exec(_T.format(idx=_i, seed=SEED, tyrepr=repr(GEN[_i]).replace('"', "'")[:150]))
+check = check_depth3
+G.warm_depth3(globals(), GEN)
+G.emit_depth3(globals(), "accepts exactly the members of the type, returns the typed image (reference model)", GEN)
